@@ -54,6 +54,9 @@ type appCase struct {
 	StdinMode   string `json:"stdin_mode,omitempty"`  // file | pipe
 	StdoutMode  string `json:"stdout_mode,omitempty"` // fast | slow
 	HookProfile string `json:"hook_profile,omitempty"`
+	// the source falls silent for SilenceMs after this many chunks have been written
+	SilenceAfterChunks int `json:"silence_after_chunks,omitempty"`
+	SilenceMs          int `json:"silence_ms,omitempty"`
 }
 
 type appObs struct {
@@ -265,7 +268,10 @@ func runAppProcess(c *child.Ctx, bin string, args []string, stdin []byte, k appC
 		go func() {
 			r := ref.NewRand(uint64(k.ID)*131 + 7)
 			data := stdin
-			for len(data) > 0 {
+			for nchunks := 0; len(data) > 0; nchunks++ {
+				if k.SilenceMs > 0 && nchunks == k.SilenceAfterChunks && nchunks > 0 {
+					sleepTicking(time.Duration(k.SilenceMs) * time.Millisecond)
+				}
 				n := k.Chunk
 				if n <= 0 {
 					n = 1 + r.Intn(4096)
@@ -317,7 +323,7 @@ func runAppProcess(c *child.Ctx, bin string, args []string, stdin []byte, k appC
 				res.ExitCode = -1
 			}
 		}
-	case <-time.After(90 * time.Second):
+	case <-time.After(90*time.Second + time.Duration(k.SilenceMs)*time.Millisecond):
 		res.TimedOut = true
 		cmd.Process.Signal(syscall.SIGQUIT)
 		select {
